@@ -1,6 +1,6 @@
 (* C05 — decode failures are reported definitively, with the right code and position.
    Statements only; proofs in theories/PBuild_proofs.v, PLoad_proofs.v. *)
-From CB Require Import Word PStream SpecHead PBuild SpecParse PRun PBuild_proofs PFinal.
+From CB Require Import Word PStream SpecHead PBuild SpecParse PRun PBuild_proofs PFinal HHeap HItems HOps HRef_proofs HCont_proofs HRead_proofs HLoad_proofs PLoad_proofs.
 Local Open Scope N_scope.
 
 (* total characterisation: for every input, every nesting limit L and every allocator size cap,
@@ -36,3 +36,26 @@ Example C05_examples :
   load 2048 (2^20) [0x5F; 0x01; 0xFF] = LErr ESyntax 2 2 /\          (* non-chunk item inside a chunked string *)
   load 2048 (2^20) [0x5F; 0x81; 0x01; 0xFF] = LErr ESyntax 3 3.      (* ... reported when that item completes *)
 Proof. repeat split; vm_compute; reflexivity. Qed.
+
+(* whenever cbor_load fails it leaves nothing allocated and touches nothing that existed before *)
+Theorem C05_load_h_clean_failure :
+  forall (refuse : N -> N -> bool) (L : N) (own ownd : addr -> N)
+           (buf : list N) (w : world) (code : lerr) 
+           (pos rd : N) (w' : world),
+         bytes_ok buf ->
+         (len buf < SIZE_MAX)%N ->
+         HCont_proofs.wf w ->
+         Inv own ownd [] w ->
+         load_h refuse L buf w = Ret (None, code, pos, rd) w' ->
+         code <> ENone /\
+         (forall b : N, (b < next w)%N -> heap w' b = heap w b) /\
+         (forall b : N, (next w <= b)%N -> heap w' b = None) /\
+         Inv own ownd [] w' /\ (next w <= next w')%N.
+Proof. exact load_h_clean_failure. Qed.
+Print Assumptions C05_load_h_clean_failure.
+
+(* every proper prefix of an acceptable item gives NOTENOUGHDATA, never a hard error *)
+Theorem C05_prefix : forall L cap x t n k, bytes_ok x -> len x < SIZE_MAX -> load L cap x = LOk t n -> 0 < k -> k < n ->
+  exists p, load L cap (firstnN k x) = LErr ENotEnough p p /\ p <= k.
+Proof. exact C05_load_prefix. Qed.
+Print Assumptions C05_prefix.
